@@ -169,6 +169,30 @@ CHECKS["C18"] = dict(
     note="trusted: re semantics, CPR format; not decided: clamping bounds of the loops, blessed path, encodings",
     design="DESIGN.md section 3 C18")
 
+CHECKS["C04"] = dict(
+    technique="structural commit/validation rules on FSArray.__setitem__ (single whole-list commit as last statement, dominance of validation), affine-form checks of the padding amounts, who-may-write rows; normalize_slice abstractly interpreted on row indices only",
+    text="All-or-nothing, never-wider and grows-downward clauses: the region path changes existing rows only by one whole-list "
+         "assignment that is the last statement (every rejecting call runs first), keeps rows outside the region in place, is "
+         "preceded by a row-count check that always raises, builds every row with setslice_with_length(..., array width); "
+         "setslice_with_length returns only the spliced row under a dominating len(result) > length check, pads by the affine "
+         "amounts startindex-len(row) / endindex-startindex-len(value) and validates the value's width against the region "
+         "when the row continues past it; the row index is normalised against an unbounded length (normalize_slice "
+         "interpreted on indices at and beyond the height) and the array grows by max(0, stop-len(rows)) blank rows; who may "
+         "write rows/num_columns; region read shape.",
+    note="not decided: which cells show what (the slice arithmetic of splice/normalize_slice) - the compositing itself",
+    design="DESIGN.md section 3 C04")
+CHECKS["C15"] = dict(
+    technique="syntax-tree rules for the __getattr__ delegation path cross-checked by abstract interpretation of a curated method list; positional-separator rule for join; affine form of the pad count; scan-form rule for split",
+    text="NARROW: the generic delegation path calls the same-named str method on the plain text with the caller's arguments, "
+         "passes non-text answers through and re-wraps text answers with shared_atts only (tree rules + 64 interpreted "
+         "samples against CPython str); join inserts the separator by position, never depending on accumulated content; "
+         "ljust/rjust pad by width - len(text) characters on the right side and delegate the fillchar form to str; split "
+         "scans non-overlapping matches (escaped literal through finditer, or a find loop advancing by len(sep)) and "
+         "returns the pieces between matches in order; splitlines splits on newline.",
+    note="NOT decided: value-level agreement of split/splitlines/join/ljust/rjust with CPython str on arbitrary arguments "
+         "(index arithmetic over runtime strings); keepends",
+    design="DESIGN.md section 3 C15")
+
 NOT_APPLICABLE = [
     ("C06", "slicing/normalisation is integer arithmetic over run layouts; no structural clause is a necessary condition visible in the code shape"),
     ("C09", "five-way overlap arithmetic across runs; a sound static decision needs inductive integer invariants (solver family)"),
